@@ -2,7 +2,7 @@ HOOKS = {
     "guard": "remoc_verif",
     "enable": "rustflags `--cfg remoc_verif` in /verif/harness/.cargo/config.toml (the harness has a path dependency on /repo/remoc)",
     "baseline_off_cmd": "cd /repo && cargo test --workspace --no-fail-fast --offline",
-    "source_commits": ["45d4eae", "d5addfd", "8a1cdf9", "25f794a"],
+    "source_commits": ["45d4eae", "d5addfd", "8a1cdf9", "25f794a", "386768c", "28434e2"],
     "add_only": False,
 }
 ENGINES = [
@@ -72,4 +72,8 @@ META = {
             "text": "TLC checks the gap-marker, keep-up and never-blocked invariants over all interleavings of sends, lag-task steps and receives for 3 subscribers; "
                     "recorded Ok/Lagged/Closed sequences of real local and remote subscribers are checked with the same formulas.",
             "note": "Bounds: 3 subscribers, capacities 1-2, 5 values in the model. Trusted: TLC, harness."},
+    "C04": {"technique": "TLA+ model of message framing / reassembly with aborted transmissions (ChmuxData, the layer the typed channels' restart logic relies on) + TLC trace validation of typed send/receive histories (TypedTrace)",
+            "text": "The port-message model is checked exhaustively with cancellation at every step (an aborted streamed item is an aborted chunked message); recorded histories of base and mpsc channels "
+                    "with failing, oversized and cancelled items are checked by TLC for per-sender gap-free ordered prefix delivery, equality with the originals and suffix-only loss.",
+            "note": "Bounds: see ChmuxData configs; real code with max_data 64/128 so that items straddle the buffered/streamed boundary. Trusted: TLC, harness, deterministic payload function."},
 }
